@@ -295,8 +295,6 @@ ThreadPool::Snapshot ThreadPool::snapshot() const
 
 void ThreadPool::threadProc(ThreadToken thread_token)
 {
-    bool let_main_loop_join_me = false;
-
     LogDbg("thread %u start", thread_token.id());
 
     while (true) {
@@ -309,7 +307,19 @@ void ThreadPool::threadProc(ThreadToken thread_token)
              */
             if ((d_->idle_thread_num >= d_->undo_tasks_cabinet.size()) && (d_->threads_cabinet.size() > d_->min_thread_num)) {
                 LogDbg("thread %u will exit, no more work.", thread_token.id());
-                let_main_loop_join_me = true;
+                //! Leave the cabinet in the same critical section as the decision. Otherwise execute()
+                //! could still count this retiring thread as a live worker (threads_cabinet.size() ==
+                //! max_thread_num), spawn nobody and notify nobody: its task would never be run.
+                //! Then hand the thread object to the main loop, which join()s and deletes it.
+                auto t = d_->threads_cabinet.free(thread_token);
+                //! t == nullptr: cleanup() has already taken every thread out of the cabinet
+                //! and is going to join and delete this one itself
+                if (t != nullptr) {
+                    d_->wp_loop->runInLoop(
+                        [t]{ t->join(); delete t; },
+                        "ThreadPool::threadProc, join and delete it"
+                    );
+                }
                 break;
             }
 
@@ -374,22 +384,6 @@ void ThreadPool::threadProc(ThreadToken thread_token)
     }
 
     LogDbg("thread %u exit", thread_token.id());
-
-    if (let_main_loop_join_me) {
-        //! 则将线程取出来，交给main_loop去join()，然后delete
-        std::unique_lock<std::mutex> lk(d_->lock);
-
-        auto t = d_->threads_cabinet.free(thread_token);
-        //! t == nullptr: cleanup() has already taken every thread out of the cabinet
-        //! and is going to join and delete this one itself
-        if (t != nullptr) {
-            d_->wp_loop->runInLoop(
-                [t]{ t->join(); delete t; },
-                "ThreadPool::threadProc, join and delete it"
-            );
-        }
-        //! 这个操作放到最后来做是为了减少主线程join()的等待时长
-    }
 }
 
 bool ThreadPool::createWorker()
